@@ -279,6 +279,22 @@ func main() {
 			if len(survivors) > 0 {
 				fmt.Printf("SELFTEST property=%s: seeded change(s) %v apply to the current tree but are not reported (checker gap, not a statement about /repo)\n", id, survivors)
 			}
+			// and the other way round: behaviour-preserving refactorings must stay silent
+			bt := runBenignTest(vdir, id, *tier, f)
+			nb, alarms := 0, []string{}
+			for _, x := range bt {
+				if x.Applied {
+					nb++
+					if x.Killed {
+						alarms = append(alarms, x.Seed+fmt.Sprint(x.Rules))
+					}
+				}
+			}
+			c.R.Extra["benign_variants"] = nb
+			c.R.Extra["benign_variants_reported"] = alarms
+			if len(alarms) > 0 {
+				fmt.Printf("SELFTEST property=%s: behaviour-preserving refactoring(s) %v are reported (false alarm of the checker, not a statement about /repo)\n", id, alarms)
+			}
 		}
 		if st := c.R.Finish(vdir, known, c.Floor); st > status {
 			status = st
